@@ -692,9 +692,11 @@ func execCluster(t *testing.T, plan any, out *Outcome) {
 	defer randState.stepMode.Store(false)
 	e := standardRun(t, out.Seed, &cp.Plan, out, runHooks{
 		noDefaultNode: true,
+		hashMainPhase: true,
 		beforeClient: func(e *env) {
 			ce = &clusterEnv{env: e, cp: cp}
 			muxRegReset(16)
+			richIdent.Store(true)
 			ce.build()
 		},
 		newClient: func(e *env, i int) (Client, error) { return NewClient(ce.clientOption()) },
